@@ -9,6 +9,9 @@ import (
 	"os"
 	"path/filepath"
 	"sort"
+	"strings"
+
+	"pgregory.net/rapid"
 
 	"github.com/dolthub/dolt/go/libraries/doltcore/doltdb"
 	"github.com/dolthub/dolt/go/libraries/doltcore/sqle/dsess"
@@ -134,4 +137,58 @@ func gcDirSize(dir string) int64 {
 		return nil
 	})
 	return n
+}
+
+// ---------------------------------------------------------------------------------------
+// wide values: TEXT / BLOB / JSON cells around the size at which dolt moves a value out of the row
+// (adaptive encoding: val.DefaultTupleLengthTarget = 2048 bytes per tuple) and large enough to be
+// stored as a multi-chunk tree behind an address.
+
+const gcBigTableDDL = "CREATE TABLE big (pk INT PRIMARY KEY, who VARCHAR(12), doc TEXT, bin BLOB, js JSON)"
+
+// gcBigString returns a deterministic, non-repeating string of n hex characters that is unique per uniq.
+func gcBigString(uniq, n int) string {
+	var b strings.Builder
+	b.Grow(n + 16)
+	h := uint64(uniq)*0x9e3779b97f4a7c15 + 0x1234567
+	for b.Len() < n {
+		h = h*6364136223846793005 + 1442695040888963407
+		fmt.Fprintf(&b, "%016x", h)
+	}
+	return b.String()[:n]
+}
+
+// gcBigSize draws a value size class: inline, around the inline/out-of-line threshold, out of line
+// (one chunk), out of line as a multi-chunk tree.
+func gcBigSize(rt *rapid.T, label string) (int, string) {
+	switch rapid.SampledFrom([]string{"out_of_line", "out_of_line", "multi_chunk", "near_threshold", "inline"}).Draw(rt, label+"_size_class") {
+	case "inline":
+		return rapid.IntRange(1, 300).Draw(rt, label+"_size"), "inline"
+	case "near_threshold":
+		return rapid.IntRange(1980, 2110).Draw(rt, label+"_size"), "near_threshold"
+	case "multi_chunk":
+		return rapid.IntRange(12000, 24000).Draw(rt, label+"_size"), "multi_chunk"
+	default:
+		return rapid.IntRange(2500, 7000).Draw(rt, label+"_size"), "out_of_line"
+	}
+}
+
+// gcBigRow draws the values of one row of table big (doc always set; bin and js each in half of the rows)
+// and returns the VALUES tuple text and the size classes used.
+func gcBigRow(rt *rapid.T, label string, pk int, who string) (string, []string) {
+	n, cl := gcBigSize(rt, label+"_doc")
+	classes := []string{"doc:" + cl}
+	doc := "'" + gcBigString(pk*4+1, n) + "'"
+	bin, js := "NULL", "NULL"
+	if rapid.Bool().Draw(rt, label+"_bin") {
+		n, cl := gcBigSize(rt, label+"_bin")
+		bin = "'" + gcBigString(pk*4+2, n) + "'"
+		classes = append(classes, "bin:"+cl)
+	}
+	if rapid.Bool().Draw(rt, label+"_js") {
+		n, cl := gcBigSize(rt, label+"_js")
+		js = fmt.Sprintf("JSON_OBJECT('n', %d, 'k', '%s')", pk, gcBigString(pk*4+3, n))
+		classes = append(classes, "js:"+cl)
+	}
+	return fmt.Sprintf("(%d, '%s', %s, %s, %s)", pk, who, doc, bin, js), classes
 }
